@@ -86,9 +86,9 @@ check("C11",
 check("C04",
       "Deep model: the LLIL the Python lifter emits (Model/Lift.v, one clause per Instruction subclass) and the evaluator the emulator runs it with (Model/IL.v: eval_llil handlers, flag post-processing, label/goto loop, intrinsics), plus the documented effect of every instruction written independently from the README tables (Model/Spec.v). "
       "Coq theorems: ADD/SUB at any width and all operands give the documented result, carry/borrow and zero (lia); every 8-bit operation (ADD SUB ADC SBC AND OR XOR PMDF INC DEC ROR ROL SHL SHR SWAP) and the BCD digit emulation are evaluated inside Coq on all 2^8 x 2^8 x carry-in x zero-in inputs and equal the documented functions, and on valid BCD the documented byte function is decimal add/subtract with carry; "
-      "instruction level, full strength (every register, flag, memory byte, low-power flag; any address, any state): ADD/SUB/ADC/SBC/AND/OR/XOR/CMP/TEST/MV A,n and ROR/ROL/SHR/SHL/SWAP A execute to exactly the documented state; so do the internal-memory forms MV r,(n) (r = A, BA, I, X, Y, U, S; widths 1-3), MV (n),r and MV/MVW (n),imm with no prefix and with each of the 15 prefixes (cell named by the prefix's mode, BP/PX/PY from the state; byte memory). "
+      "instruction level, full strength (every register, flag, memory byte, low-power flag; any address, any state): ADD/SUB/ADC/SBC/AND/OR/XOR/CMP/TEST/MV A,n, ROR/ROL/SHR/SHL/SWAP A, INC/DEC A|BA|I and PUSHU/POPU A execute to exactly the documented state; so do the internal-memory forms MV r,(n) (r = A, BA, I, X, Y, U, S; widths 1-3), MV (n),r and MV/MVW (n),imm with no prefix and with each of the 15 prefixes (cell named by the prefix's mode, BP/PX/PY from the state; byte memory), and the register-indirect forms MV A,[r] / [r++] / [--r] / [r+n] / [r-n] and MV [..],A for r = X, Y, U, S (scratch registers outside the comparison). "
       "Tie, every run: IL text of the model lifter vs the Python lifter on every prefix x opcode x mode-byte structure; model evaluator vs Emulator.execute_instruction (registers, written memory, access logs, random TEMPs); extracted documented semantics vs the Python emulator on the same cases and on op A,n for all A x n x carry (2^17 per operation in thorough).",
-      "Trusted: Coq kernel (vm_compute for the finite sweeps), extraction, harness drivers, README transcription in Spec.v. Modelled not verified: instructions.py/opcodes.py lifts, eval_llil.py, emulator loop, intrinsics.py. Partial: instruction-level theorems cover 15 register/immediate instructions and 13 internal-memory load/store opcodes x 16 prefix choices; the other memory forms, counted and stack instructions are decided by the executable documented semantics compared with the implementation on every run (stack frames of CALL/RET/IR/RETI are proved under C05/C12); runs of more than 257 iterations are judged on the implementation by the documented invariants only. Known findings: EXL, decimal shifts, no wrap of counted internal runs, RET page, MV [r3++],r3, BP/PX/PY aliasing; four defects fixed (ADC/SBC carry, JP (n), MVL and EX prefix modes).",
+      "Trusted: Coq kernel (vm_compute for the finite sweeps), extraction, harness drivers, README transcription in Spec.v. Modelled not verified: instructions.py/opcodes.py lifts, eval_llil.py, emulator loop, intrinsics.py. Partial: instruction-level theorems cover 23 register/immediate/stack instructions, 13 internal-memory load/store opcodes x 16 prefix choices and 40 register-indirect forms; the other memory forms, counted and stack instructions are decided by the executable documented semantics compared with the implementation on every run (stack frames of CALL/RET/IR/RETI are proved under C05/C12); runs of more than 257 iterations are judged on the implementation by the documented invariants only. Known findings: EXL, decimal shifts, no wrap of counted internal runs, RET page, MV [r3++],r3, BP/PX/PY aliasing; four defects fixed (ADC/SBC carry, JP (n), MVL and EX prefix modes).",
       "Coq proof (lia + exhaustive in-kernel evaluation lifted by forallb_forall + symbolic execution of lifted IL) + IL-text and execution correspondence vs the Python lifter/emulator + executable documented-semantics oracle",
       "DESIGN.md 5 C04")
 
@@ -144,8 +144,8 @@ check("C10",
 check("C12",
       "Model/Irq.v: the documented delivery gate (master enable, mask bit, status bit), the gate PCE500Emulator.step actually uses, and the five-byte frame both implementations push (PC, F, IMR below S, master enable cleared, PC := vector). "
       "Coq theorems: the gate needs all three ingredients; the frame lays out exactly IMR, F, PC0..2 below the old S, clears only IMR.7 and touches no other byte; and delivering an interrupt followed by the IL the lifter emits for RETI (run by the model evaluator, symbolic state) restores PC, S, F with both flags, IMR and every architectural register, memory unchanged except the five frame bytes - for every state with a well-formed register file, byte memory and five bytes of stack (F round trip decided over all 256 values in the kernel); the Python gate is refuted with a witness. "
-      "Every run, on PCE500Emulator.step and CoreRuntime::step: generated main programs/handlers x 13 initial masks x both timers at periods 2-9 x ON-key presses; a trace oracle evaluates the property on each core (gate from the pushed IMR, exact frame, master enable cleared, vector, no re-entry, RETI restores, halted executes nothing and wakes on status, fresh enabled requests taken within 4 steps) and every observed frame is compared with the extracted model frame.",
-      "Trusted: Coq kernel, extraction, harness irq_cmd.py / irq_cmd.rs, the trace oracle in checks/c12.py. Modelled and proved: frame + RETI inverse over the IL model. NOT modelled: the controllers' bookkeeping (pending, latched, armed-from-ISR flags) and timer/keyboard event generation in both implementations - decided by the trace oracle, so the level is partial; matrix-key (KEYI) events are not generated (ON key and both timers are). Known finding: Python takes KEY/ON-key interrupts with the master enable clear.",
+      "Every run, on PCE500Emulator.step and CoreRuntime::step: generated main programs/handlers x 13 initial masks x both timers at periods 2-9 x ON-key presses x matrix-key presses and releases; a trace oracle evaluates the property on each core (gate from the pushed IMR, exact frame, master enable cleared, vector, no re-entry, RETI restores, halted executes nothing and wakes on status, fresh enabled requests taken within 4 steps) and every observed frame is compared with the extracted model frame.",
+      "Trusted: Coq kernel, extraction, harness irq_cmd.py / irq_cmd.rs, the trace oracle in checks/c12.py. Modelled and proved: frame + RETI inverse over the IL model. NOT modelled: the controllers' bookkeeping (pending, latched, armed-from-ISR flags) and timer/keyboard event generation in both implementations - decided by the trace oracle, so the level is partial; matrix keys are pressed and released in 30% of the scenarios (all columns strobed first), besides the ON key and both timers. Known finding: Python takes KEY/ON-key interrupts with the master enable clear.",
       "Coq proof (symbolic execution of RETI over the delivery frame, lia; in-kernel sweep for F) + trace-oracle evaluation on Python and Rust machine runs + extracted frame correspondence",
       "DESIGN.md 5 C12")
 
